@@ -774,4 +774,262 @@ theorem run_ok [DecidableEq α] [Inhabited α] (b : Nat) (ops : List (ROp α)) :
     obtain ⟨g2, hst2, hpos2⟩ := ih _ g
     exact ⟨g2, hst2.trans hst, Nat.le_trans hpos hpos2⟩
 
+/-! ## the writer -/
+
+/-- bytes written (malloc'ed) but not yet flushed, in order -/
+def _root_.Netpoll.Buf.Q.pendingBytes (q : Q α) : List α := (q.items.filter (! ·.2)).map (·.1)
+
+/-- the queue is `F` flushed followed by `P` pending -/
+def Shape (q : Q α) (F P : List α) : Prop := q.items = F.map (·, true) ++ P.map (·, false)
+
+theorem filter_flushed_true (l : List α) : (l.map (·, true)).filter (·.2) = l.map (·, true) := by
+  induction l with
+  | nil => rfl
+  | cons a t ih => simp
+theorem filter_flushed_not (l : List α) : (l.map (·, true)).filter (! ·.2) = [] := by
+  induction l with
+  | nil => rfl
+  | cons a t ih => simp
+
+theorem Shape.facts {q : Q α} {F P : List α} (h : Shape q F P) :
+    q.flushedBytes = F ∧ q.pendingBytes = P ∧ q.len = F.length ∧ q.mallocLen = P.length := by
+  unfold Shape at h
+  simp [Q.flushedBytes, Q.pendingBytes, Q.len, Q.mallocLen, h, List.filter_append, filter_flushed_true,
+    filter_flushed_not, filter_pending, filter_not_pending, Function.comp_def]
+
+/-- the Writer interface as a function of the calls alone: (stream flushed so far, bytes written since the last Flush) -/
+def wspec : (List α × List α) → WOp α → (List α × List α)
+  | (s, p), .malloc n d => (s, if n ≤ 0 then p else p ++ d)
+  | (s, p), .writeBinary d _ => (s, p ++ d)
+  | (s, p), .writeByte a => (s, p ++ [a])
+  | (s, p), .mallocAck n => (s, if n < 0 then p else p.take n.toNat)
+  | (s, p), .flush => (s ++ p, [])
+  | (s, p), .mallocLen => (s, p)
+
+/-- the writer contract: `MallocAck(n)` needs `n ≤ MallocLen()` -/
+def WContract (w : ZCWriter α) : WOp α → Prop
+  | .mallocAck n => n ≤ (w.q.mallocLen : Int)
+  | _ => True
+
+def ZCWriter.run [DecidableEq α] (w : ZCWriter α) (ops : List (WOp α)) : ZCWriter α :=
+  ops.foldl (fun w op => (w.step op).1) w
+
+/-- every call of the sequence is inside the writer contract in the state it is made in -/
+def WInContract [DecidableEq α] (w : ZCWriter α) : List (WOp α) → Prop
+  | [] => True
+  | op :: ops => WContract w op ∧ WInContract (w.step op).1 ops
+
+/-- invariant of a `zcWriter` -/
+structure WGood (w : ZCWriter α) : Prop where
+  /-- flushed entries come before pending ones -/
+  shape : Shape w.q w.q.flushedBytes w.q.pendingBytes
+  /-- submitted = already handed to the sink ++ flushed and still buffered -/
+  stream : w.sink.got ++ w.q.flushedBytes = w.submitted
+  flags : QFlags w.q
+  inC : w.inC = true
+
+theorem WGood.of_shape {w : ZCWriter α} {F P : List α} (h : Shape w.q F P) (hs : w.sink.got ++ F = w.submitted)
+    (hf : QFlags w.q) (hi : w.inC = true) : WGood w := by
+  obtain ⟨h1, h2, _, _⟩ := h.facts
+  exact ⟨by rw [h1, h2]; exact h, by rw [h1]; exact hs, hf, hi⟩
+
+theorem Sink.write_spec (s : Sink α) (p : List α) :
+    (s.write p).1.1 ≤ p.length ∧ (s.write p).2.got = s.got ++ p.take (s.write p).1.1 := by
+  unfold Sink.write
+  split
+  · simp
+  · simp; omega
+
+theorem ZCWriter.call_fst [DecidableEq α] (w : ZCWriter α) (op : Op α) :
+    (w.call op).1 = { w with q := (specStep w.q op).1, inC := w.inC && Contract w.q op } := rfl
+theorem ZCWriter.call_snd [DecidableEq α] (w : ZCWriter α) (op : Op α) : (w.call op).2 = (specStep w.q op).2 := rfl
+
+
+theorem WGood.call [DecidableEq α] {w : ZCWriter α} (hw : WGood w) {op : Op α} (hc : Contract w.q op = true) {P' : List α}
+    (hsh : Shape (specStep w.q op).1 w.q.flushedBytes P') (hf : QFlags (specStep w.q op).1) :
+    WGood (w.call op).1 ∧ (w.call op).1.q.pendingBytes = P' ∧ (w.call op).1.submitted = w.submitted ∧
+      (w.call op).1.sink = w.sink := by
+  rw [ZCWriter.call_fst]
+  refine ⟨WGood.of_shape hsh hw.stream hf (by simp [hw.inC, hc]), hsh.facts.2.1, rfl, rfl⟩
+
+theorem contract_write {q : Q α} (hf : QFlags q) :
+    (∀ n d, Contract q (.malloc n d) = true) ∧ (∀ p c, Contract q (.writeBinary p c) = true) ∧
+    (∀ a, Contract q (.writeByte a) = true) ∧ (∀ n, n ≤ (q.mallocLen : Int) → Contract q (.mallocAck n) = true) ∧
+    Contract q .flush = true ∧ Contract q .mallocLen = true := by
+  obtain ⟨h1, h2, h3, h4⟩ := hf
+  simp [Contract, h1, h2, h3, h4]
+
+theorem shape_malloc [DecidableEq α] {q : Q α} {F P : List α} (h : Shape q F P) (n : Int) (d : List α) :
+    Shape (specStep q (.malloc n d)).1 F (if n ≤ 0 then P else P ++ d) := by
+  unfold Shape at *
+  simp only [specStep]
+  split <;> simp [h]
+
+theorem shape_writeBinary [DecidableEq α] {q : Q α} {F P : List α} (h : Shape q F P) (p : List α) (c : Nat) :
+    Shape (specStep q (.writeBinary p c)).1 F (P ++ p) := by
+  unfold Shape at *
+  simp only [specStep]
+  split
+  · rename_i hp; simp at hp; simp [h, hp]
+  · simp [h]
+
+theorem shape_writeByte [DecidableEq α] {q : Q α} {F P : List α} (h : Shape q F P) (a : α) :
+    Shape (specStep q (.writeByte a)).1 F (P ++ [a]) := by
+  unfold Shape at *
+  simp [specStep, h]
+
+theorem shape_mallocAck [DecidableEq α] {q : Q α} {F P : List α} (h : Shape q F P) (n : Int) :
+    Shape (specStep q (.mallocAck n)).1 F (if n < 0 then P else P.take n.toNat) := by
+  have hlen := h.facts.2.2.1
+  unfold Shape at *
+  simp only [specStep]
+  split
+  · exact h
+  · simp only [hlen, h]
+    rw [List.take_append, List.take_of_length_le (by simp)]
+    simp [List.map_take]
+
+theorem flags_simple [DecidableEq α] {q : Q α} (hf : QFlags q) :
+    (∀ n d, QFlags (specStep q (.malloc n d)).1) ∧ (∀ p c, QFlags (specStep q (.writeBinary p c)).1) ∧
+    (∀ a, QFlags (specStep q (.writeByte a)).1) ∧ (∀ n, QFlags (specStep q (.mallocAck n)).1) := by
+  refine ⟨?_, ?_, ?_, ?_⟩ <;> intros <;> simp only [specStep] <;> (try split) <;> exact hf
+
+
+theorem skip_allF [DecidableEq α] {q : Q α} (h : AllF q.items) (n : Nat) (hn : n ≤ q.len) :
+    (specStep q (.skip (n : Int))).1 = { q with items := q.items.drop n } := by
+  rcases takeRead_took h (n : Int) with ⟨_, _, h3⟩ | ⟨bs, h1, _, h3, _⟩
+  · simp at h3; omega
+  · simp only [specStep, h1]
+    simp at h3; rw [h3]
+
+theorem flush_q [DecidableEq α] {q : Q α} {F P : List α} (h : Shape q F P) :
+    (specStep q .flush).1.items = (F ++ P).map (·, true) ∧ (specStep q .flush).1.flushedBytes = F ++ P ∧
+    (specStep q .flush).1.len = (F ++ P).length := by
+  have h1 : (specStep q .flush).1.items = (F ++ P).map (·, true) := by
+    unfold Shape at h
+    simp [specStep, h, Function.comp_def]
+  have h2 : Shape (specStep q .flush).1 (F ++ P) [] := by simp [Shape, h1]
+  exact ⟨h1, h2.facts.1, h2.facts.2.2.1⟩
+
+theorem flush_eq [DecidableEq α] {w : ZCWriter α} (hw : WGood w) :
+    w.flush =
+      ({ sink := (w.sink.write (w.q.flushedBytes ++ w.q.pendingBytes)).2,
+         q := { (specStep w.q .flush).1 with
+                items := (specStep w.q .flush).1.items.drop (w.sink.write (w.q.flushedBytes ++ w.q.pendingBytes)).1.1 },
+         submitted := w.submitted ++ w.q.pendingBytes, inC := true },
+       match (w.sink.write (w.q.flushedBytes ++ w.q.pendingBytes)).1.2 with | .none => .ok .unit | _ => .fail .src) := by
+  obtain ⟨hitems, hfb, hlen⟩ := flush_q hw.shape
+  have hall : AllF (specStep w.q .flush).1.items := by rw [hitems]; exact allF_map_true _
+  have hfl : QFlags (specStep w.q .flush).1 := by
+    obtain ⟨h1, h2, h3, _⟩ := hw.flags
+    exact ⟨h1, h2, h3, rfl⟩
+  have c1 : Contract w.q .flush = true := (contract_write hw.flags).2.2.2.2.1
+  have c2 : Contract (specStep w.q .flush).1 .bytes = true := by
+    obtain ⟨h1, h2, h3, h4⟩ := hfl
+    simp [Contract, h1, h2, h4, Q.readOK_of_allF hall]
+  have hle := (Sink.write_spec w.sink (w.q.flushedBytes ++ w.q.pendingBytes)).1
+  rw [← hlen] at hle
+  generalize hq1 : (specStep w.q .flush).1 = q1 at *
+  have hb : specStep q1 .bytes = (q1, .exact (.bytes (w.q.flushedBytes ++ w.q.pendingBytes))) := by
+    simp [specStep, hfb]
+  have hpb : List.map (fun x => x.fst) (List.filter (fun x => !x.snd) w.q.items) = w.q.pendingBytes := rfl
+  simp only [ZCWriter.flush, ZCWriter.call_fst, ZCWriter.call_snd, hq1, hb, ofExpect, hpb, hw.inC, c1, c2, Bool.and_true]
+  generalize w.sink.write (w.q.flushedBytes ++ w.q.pendingBytes) = out at *
+  by_cases hn : out.1.1 > 0
+  · have hsk := skip_allF hall out.1.1 hle
+    have c3 : Contract q1 (.skip (out.1.1 : Int)) = true := by
+      simp [Contract, hfl.1, Q.readOK_of_allF hall]
+    have c4 : Contract { q1 with items := q1.items.drop out.1.1 } .release = true := by
+      simp [Contract, hfl.1]
+    simp only [hn, if_true, hsk, c3, c4, Bool.and_true]
+    simp [specStep]
+    cases out.1.2 <;> rfl
+  · have h0 : out.1.1 = 0 := by omega
+    simp [h0]
+    cases out.1.2 <;> rfl
+
+
+/-- what one `Flush` does: the sink is offered everything flushed so far and not yet accepted (old remainder ++ newly
+flushed); what it accepts (`n` bytes, any short count) moves from the buffer to the sink, the rest stays buffered. -/
+theorem wflush_facts [DecidableEq α] {w : ZCWriter α} (hw : WGood w) :
+    let offered := w.q.flushedBytes ++ w.q.pendingBytes
+    let n := (w.sink.write offered).1.1
+    let w' := (w.step .flush).1
+    WGood w' ∧ n ≤ offered.length ∧ w'.sink.got = w.sink.got ++ offered.take n ∧ w'.q.flushedBytes = offered.drop n ∧
+      w'.q.pendingBytes = [] ∧ w'.submitted = w.submitted ++ w.q.pendingBytes ∧ (n = offered.length → w'.q.len = 0) ∧
+      (w.step .flush).2 = (match (w.sink.write offered).1.2 with | .none => .ok .unit | _ => .fail .src) := by
+  intro offered n w'
+  have heq : w.step .flush = w.flush := rfl
+  obtain ⟨hitems, _, _⟩ := flush_q hw.shape
+  obtain ⟨hle, hgot⟩ := Sink.write_spec w.sink offered
+  have hfl : QFlags (specStep w.q .flush).1 := by
+    obtain ⟨h1, h2, h3, _⟩ := hw.flags
+    exact ⟨h1, h2, h3, rfl⟩
+  have hsh : Shape w'.q (offered.drop n) [] := by
+    show Shape (w.step .flush).1.q _ _
+    rw [heq, flush_eq hw]
+    simp only [Shape, hitems, List.map_drop, List.map_nil, List.append_nil]
+    rfl
+  have hflags : QFlags w'.q := by
+    show QFlags (w.step .flush).1.q
+    rw [heq, flush_eq hw]; exact hfl
+  have hsink : w'.sink = (w.sink.write offered).2 := by
+    show (w.step .flush).1.sink = _
+    rw [heq, flush_eq hw]
+  have hsub : w'.submitted = w.submitted ++ w.q.pendingBytes := by
+    show (w.step .flush).1.submitted = _
+    rw [heq, flush_eq hw]
+  have hinc : w'.inC = true := by
+    show (w.step .flush).1.inC = _
+    rw [heq, flush_eq hw]
+  have hgot' : w'.sink.got = w.sink.got ++ offered.take n := by rw [hsink]; exact hgot
+  have hstream : w'.sink.got ++ offered.drop n = w'.submitted := by
+    rw [hgot', hsub, List.append_assoc, List.take_append_drop, ← hw.stream, List.append_assoc]
+  refine ⟨WGood.of_shape hsh hstream hflags hinc, hle, hgot', hsh.facts.1, hsh.facts.2.1, hsub, ?_, ?_⟩
+  · intro hn
+    rw [hsh.facts.2.2.1, hn]; simp
+  · rw [heq, flush_eq hw]
+
+theorem wstep_ok [DecidableEq α] {w : ZCWriter α} (hw : WGood w) (op : WOp α) (hc : WContract w op) :
+    WGood (w.step op).1 ∧
+    ((w.step op).1.submitted, (w.step op).1.q.pendingBytes) = wspec (w.submitted, w.q.pendingBytes) op := by
+  cases op with
+  | malloc n d =>
+    obtain ⟨g, hp, hs, _⟩ := hw.call ((contract_write hw.flags).1 n d) (shape_malloc hw.shape n d) ((flags_simple hw.flags).1 n d)
+    exact ⟨g, by simp only [ZCWriter.step, wspec, hp, hs]⟩
+  | writeBinary p c =>
+    obtain ⟨g, hp, hs, _⟩ := hw.call ((contract_write hw.flags).2.1 p c) (shape_writeBinary hw.shape p c) ((flags_simple hw.flags).2.1 p c)
+    exact ⟨g, by simp only [ZCWriter.step, wspec, hp, hs]⟩
+  | writeByte a =>
+    obtain ⟨g, hp, hs, _⟩ := hw.call ((contract_write hw.flags).2.2.1 a) (shape_writeByte hw.shape a) ((flags_simple hw.flags).2.2.1 a)
+    exact ⟨g, by simp only [ZCWriter.step, wspec, hp, hs]⟩
+  | mallocAck n =>
+    obtain ⟨g, hp, hs, _⟩ := hw.call ((contract_write hw.flags).2.2.2.1 n hc) (shape_mallocAck hw.shape n) ((flags_simple hw.flags).2.2.2 n)
+    exact ⟨g, by simp only [ZCWriter.step, wspec, hp, hs]⟩
+  | flush =>
+    obtain ⟨g, _, _, _, hp, hs, _⟩ := wflush_facts hw
+    exact ⟨g, by simp only [wspec, hp, hs]⟩
+  | mallocLen =>
+    have hq : specStep w.q .mallocLen = (w.q, .exact (.num w.q.mallocLen)) := rfl
+    have hsh : Shape (specStep w.q .mallocLen).1 w.q.flushedBytes w.q.pendingBytes := hw.shape
+    obtain ⟨g, hp, hs, _⟩ := hw.call (contract_write hw.flags).2.2.2.2.2 hsh hw.flags
+    exact ⟨g, by simp only [ZCWriter.step, wspec, hp, hs]⟩
+
+
+theorem WGood.init (script : List (Nat × IOErr)) : WGood ({ sink := { script := script } } : ZCWriter α) :=
+  ⟨by simp [Shape, Q.flushedBytes, Q.pendingBytes], by simp [Q.flushedBytes], ⟨rfl, rfl, rfl, rfl⟩, rfl⟩
+
+theorem wrun_ok [DecidableEq α] (ops : List (WOp α)) :
+    ∀ w : ZCWriter α, WGood w → WInContract w ops →
+      WGood (w.run ops) ∧
+      ((w.run ops).submitted, (w.run ops).q.pendingBytes) = ops.foldl wspec (w.submitted, w.q.pendingBytes) := by
+  induction ops with
+  | nil => intro w hw _; exact ⟨hw, rfl⟩
+  | cons op ops ih =>
+    intro w hw hc
+    obtain ⟨g, hsp⟩ := wstep_ok hw op hc.1
+    obtain ⟨g2, h2⟩ := ih _ g hc.2
+    refine ⟨g2, ?_⟩
+    rw [List.foldl_cons, ← hsp]; exact h2
+
 end Netpoll.Adapter
